@@ -555,6 +555,53 @@ class Parser:
                     names.append(part[0][1])
                 self.i = c + 1
                 pat = ("tuple", names)
+            elif self.peek() == "[" or (self.kind() == "id" and self.peek(1) == "{" and self.peek()[:1].isupper()):
+                # irrefutable array / struct patterns of plain bindings, desugared:
+                #   let [a, b] = e;        =>  let p = e; let a = p[0]; let b = p[1];
+                #   let S { f, g: h } = P; =>  let f = P.f; let h = P.g;       (P a place: a path, `*path`)
+                is_arr = self.peek() == "["
+                if not is_arr:
+                    self.eat()
+                c = match_close(self.t, self.i)
+                binds = []
+                for k, part in enumerate(split_top(self.t[self.i + 1:c])):
+                    pm = [x for x in part if x[1] != "mut"]
+                    pmut = len(pm) != len(part)
+                    if is_arr:
+                        if len(pm) != 1 or pm[0][0] != "id":
+                            raise Unsupported("nested pattern in let")
+                        binds.append((pm[0][1], k, pmut))
+                    else:
+                        if len(pm) == 1 and pm[0][0] == "id":
+                            binds.append((pm[0][1], pm[0][1], pmut))
+                        elif len(pm) == 3 and pm[1][1] == ":" and pm[0][0] == "id" and pm[2][0] == "id":
+                            binds.append((pm[2][1], pm[0][1], pmut))
+                        else:
+                            raise Unsupported("nested pattern in let")
+                self.i = c + 1
+                if self.peek() == ":":
+                    self.eat(); self.parse_type()
+                self.eat("=")
+                init = self.parse_expr()
+                self.eat(";")
+                if mut:
+                    raise Unsupported("let mut with a pattern")
+                out = []
+                if is_arr:
+                    tmp = f"pat_{c}"          # position of the pattern among the function's tokens
+                    out.append(("let", ("name", tmp), False, None, init))
+                    for n, k, pmut in binds:
+                        if n != "_":
+                            out.append(("let", ("name", n), pmut, None, ("index", ("path", [tmp]), ("lit", k, None))))
+                else:
+                    i0 = init
+                    while i0[0] == "paren":
+                        i0 = i0[1]
+                    if not (i0[0] == "path" or (i0[0] == "deref" and i0[1][0] == "path")):
+                        raise Unsupported("struct pattern in let whose right-hand side is not a place")
+                    for n, fld, pmut in binds:
+                        out.append(("let", ("name", n), pmut, None, ("field", init if init[0] == "path" else ("paren", i0), fld)))
+                return ("splice", out, None)
             else:
                 pat = ("name", self.eat())
             ty = None
